@@ -59,3 +59,114 @@ def wclass(v):
     if v[0] == "str":
         return "empty" if v[1] == "" else "other:'%s'" % v[1]
     return "other:" + p21.render_value(v)
+
+
+# ------------------------------------------------------------------ C03 single-fault files
+LIT = {"int": "7", "real": "2.5", "str": "'zz'", "bin": '"0F"', "enum": ".RED.", "ref": "#1", "list": "(1,2)",
+       "strlist": "('a')", "intlist": "(1,2)", "typed_enum": "COLOUR(.RED.)", "typed_unknown": "NOSUCHTYPE(1)"}
+BASE = {1: "TGT(1)", 2: "OTHER(2)", 3: "O_REF(#1,$,#1)", 4: "R_STR('a','b','c')", 5: "TGT(5)"}
+FID = 10
+
+
+def p21read_tool(cfg="plain"):
+    """The repository's reference tool built against the kinds library."""
+    from .common import REPO
+    s = build.schema_lib("kinds", open(SCHEMA).read(), cfg)
+    src = [os.path.join(REPO, "src", "test", "p21read", "p21read.cc"),
+           os.path.join(REPO, "src", "test", "p21read", "sc_benchmark.cc")]
+    return build.link_driver("p21read_kinds", src, cfg=cfg, schema=s,
+                             extra_flags=["-I" + os.path.join(REPO, "src", "test", "p21read")])
+
+
+def fault_case(c):
+    """-> (file text, faulty id, ids that must stay intact)"""
+    cl, k, pos, lit = c["class"], c["kind"], c["pos"], c["lit"]
+    V = VALID.get(k, "")
+    ent = "R_" + k.upper()
+    vals = [V, V, V]
+    fid, term = FID, ";"
+    if cl == "few":
+        txt = "%s(%s)" % (ent, ",".join(vals[:2]))
+    elif cl == "many":
+        txt = "%s(%s)" % (ent, ",".join(vals + [V]))
+    elif cl == "wrongkind":
+        vals[pos - 1] = LIT[lit]
+        txt = "%s(%s)" % (ent, ",".join(vals))
+    elif cl == "unknown_kw":
+        txt = "NOSUCH(1)"
+    elif cl == "abstract_kw":
+        txt = "ABS_E(1)"
+    elif cl == "value_for_derived":
+        txt = "DSUB(1,5)"
+    elif cl == "dup_id":
+        txt, fid = "TGT(77)", 5
+    elif cl == "bad_enum":
+        vals[pos - 1] = ".PURPLE." if k == "enum" else ".X."
+        txt = "%s(%s)" % (ent, ",".join(vals))
+    elif cl == "star_not_derived":
+        vals[pos - 1] = "*"
+        txt = "%s(%s)" % (ent, ",".join(vals))
+    elif cl == "missing_aggr":
+        vals[pos - 1] = "$"
+        txt = "%s(%s)" % (ent, ",".join(vals))
+    elif cl in ("dangling_ref", "wrongtype_ref"):
+        bad = "#99" if cl == "dangling_ref" else "#2"
+        vals[pos - 1] = bad if k in ("ref", "sel") else "(#1,%s)" % bad
+        txt = "%s(%s)" % (ent, ",".join(vals))
+    elif cl == "select_outside":
+        vals[pos - 1] = LIT[lit]
+        txt = "%s(%s)" % (ent, ",".join(vals))
+    elif cl == "unterminated_inst":
+        txt, term = "%s(%s)" % (ent, ",".join(vals)), ""
+    elif cl == "unterminated_str":
+        vals = ["'ab'", "'cd'", "'ef'"]
+        vals[pos - 1] = vals[pos - 1][:-1]
+        txt = "R_STR(%s)" % ",".join(vals)
+    else:
+        raise ValueError(cl)
+    order = {"first": [FID, 1, 2, 3, 4, 5], "middle": [1, 2, 3, FID, 4, 5], "last": [1, 2, 3, 4, 5, FID]}[c["place"]]
+    lines = []
+    for i in order:
+        if i == FID:
+            lines.append("#%d=%s%s\n" % (fid, txt, term))
+        else:
+            lines.append("#%d=%s;\n" % (i, BASE[i]))
+    at = order.index(FID)
+    after = order[at + 1:]
+    intact = [i for i in order if i != FID]
+    if c["region"] == "next" and after:
+        intact.remove(after[0])
+    elif c["region"] == "eof":
+        intact = [i for i in intact if i not in after]
+    if cl == "dup_id":
+        intact = [i for i in intact if i != 5]
+    if 1 not in intact and 3 in intact:
+        intact.remove(3)          # #3 refers to #1: its references cannot survive the loss of #1
+    return HEAD + "".join(lines) + TAIL, fid, intact, txt
+
+
+def intact_ok(out_path, ids):
+    """every instance in ids is present in the written file with the values of BASE"""
+    got = {}
+    try:
+        text = open(out_path, errors="replace").read()
+    except OSError as ex:
+        return False, "no output: %s" % ex
+    try:
+        data = p21.parse(text)["data"]
+    except p21.P21Error:
+        # the damaged instance may have been written back in a form that is not valid Part 21 (that is another
+        # property's business): judge the other instances statement by statement
+        import re
+        data = []
+        for m in re.finditer(r"(?m)^#(\d+)=(.*?);$", text):
+            try:
+                data.append(p21.Parser("#%s=%s;" % (m.group(1), m.group(2))).instance(False))
+            except p21.P21Error:
+                pass
+    for x in data:
+        got.setdefault(x["id"], []).append(p21.render_instance(x).split("=", 1)[1].rstrip(";"))
+    for i in ids:
+        if got.get(i) != [BASE[i]]:
+            return False, "#%d is %s, file has %s" % (i, got.get(i), BASE[i])
+    return True, ""
